@@ -5,7 +5,11 @@ For a function and a variable, EVERY assignment to that variable in the function
 converted to a sympy expression -- arithmetic is interpreted, `np.sqrt`/`abs`/`np.abs`/`np.sum(x, 0)` are
 functions, every other sub-expression (names, attribute reads, method calls such as `M.norm()`) is an opaque
 atom named by its source text -- and must equal, up to algebraic simplification, one of the forms the
-contract allows; forms marked required must occur.  This is a check of *which formula the code computes*,
+contract allows; forms marked required must occur.  A form may carry a *guard* (the condition under which the
+property states that form, e.g. the substitute formula only for data whose norm is zero): the conjunction of the
+enclosing `if` tests on the way to the assignment (read into linear real arithmetic, anything else an opaque atom;
+`x.norm()` atoms are non-negative) must then imply the guard -- a z3 validity query per assignment.  Targets may be
+names or subscripted names (`ranks[k]`).  This is a check of *which formula the code computes*,
 not of floating-point behaviour (reals are mathematical), and says nothing about the atoms themselves
 (`M.norm()`, `innerprod`, `mttkrp` are covered, boundedly, by the stand-ins of C02/C09/C10).
 """
@@ -84,16 +88,125 @@ def equal(a, b) -> bool:
         return False
 
 
-#: qualname -> variable -> list of (allowed form, required?)
+
+def _walk_with_guards(fn):
+    """Every statement of the function with the list of (if-test, polarity) pairs enclosing it.  A test whose names
+    are assigned inside the branch before the statement says nothing about them there any more: marked stale."""
+    def rec(stmts, path):
+        for st in stmts:
+            yield st, path
+            if isinstance(st, ast.If):
+                yield from rec(st.body, path + [(st.test, True, st.body)])
+                yield from rec(st.orelse, path + [(st.test, False, st.orelse)])
+            elif isinstance(st, (ast.For, ast.While)):
+                yield from rec(st.body, path)
+                yield from rec(st.orelse, path)
+            elif isinstance(st, ast.With):
+                yield from rec(st.body, path)
+            elif isinstance(st, ast.Try):
+                for blk in (st.body, st.orelse, st.finalbody) + tuple(h.body for h in st.handlers):
+                    yield from rec(blk, path)
+    yield from rec(fn.body, [])
+
+
+class _Z3Reader:
+    """if-tests into quantifier-free linear/nonlinear real arithmetic; whatever is not arithmetic or a comparison is
+    an opaque atom named by its source text (after the same single-assignment alias reading as the formulas)."""
+
+    def __init__(self):
+        import z3
+        self.z3 = z3
+        self.axioms = []
+        self._seen = set()
+
+    def real(self, n, depth=0):
+        z3 = self.z3
+        if isinstance(n, ast.Name) and n.id in _ALIASES and depth < 6:
+            return self.real(_ALIASES[n.id], depth + 1)
+        if isinstance(n, ast.Constant) and isinstance(n.value, (int, float)) and not isinstance(n.value, bool):
+            return z3.RealVal(repr(n.value)) if isinstance(n.value, int) else z3.RealVal(str(sp.Rational(str(n.value))))
+        if isinstance(n, ast.UnaryOp) and isinstance(n.op, ast.USub):
+            return -self.real(n.operand, depth)
+        if isinstance(n, ast.BinOp) and isinstance(n.op, (ast.Add, ast.Sub, ast.Mult)):
+            a, b = self.real(n.left, depth), self.real(n.right, depth)
+            return a + b if isinstance(n.op, ast.Add) else a - b if isinstance(n.op, ast.Sub) else a * b
+        txt = ast.unparse(n)
+        v = z3.Real("⟦" + txt + "⟧")
+        if txt.endswith(".norm()") and txt not in self._seen:
+            self._seen.add(txt)
+            self.axioms.append(v >= 0)
+        return v
+
+    def boolean(self, n):
+        z3 = self.z3
+        if isinstance(n, ast.BoolOp):
+            parts = [self.boolean(v) for v in n.values]
+            return z3.And(*parts) if isinstance(n.op, ast.And) else z3.Or(*parts)
+        if isinstance(n, ast.UnaryOp) and isinstance(n.op, ast.Not):
+            return z3.Not(self.boolean(n.operand))
+        if isinstance(n, ast.Constant) and isinstance(n.value, bool):
+            return z3.BoolVal(n.value)
+        if isinstance(n, ast.Compare) and all(isinstance(o, (ast.Eq, ast.NotEq, ast.Lt, ast.LtE, ast.Gt, ast.GtE)) for o in n.ops):
+            terms = [self.real(x) for x in [n.left] + list(n.comparators)]
+            cs = []
+            for o, a, b in zip(n.ops, terms, terms[1:]):
+                cs.append({ast.Eq: a == b, ast.NotEq: a != b, ast.Lt: a < b, ast.LtE: a <= b, ast.Gt: a > b, ast.GtE: a >= b}[type(o)])
+            return z3.And(*cs) if len(cs) > 1 else cs[0]
+        return z3.Bool("⟦" + ast.unparse(n) + "⟧?")
+
+
+def _assigned_names(stmts):
+    out = set()
+    for st in stmts:
+        for n in ast.walk(st):
+            if isinstance(n, (ast.Assign, ast.AugAssign, ast.AnnAssign, ast.For)):
+                for t in (n.targets if isinstance(n, ast.Assign) else [n.target]):
+                    for el in ast.walk(t):
+                        if isinstance(el, ast.Name) and isinstance(el.ctx, ast.Store):
+                            out.add(el.id)
+                    base = t
+                    while isinstance(base, (ast.Subscript, ast.Attribute)):
+                        base = base.value  # a[i] = ..., a.f = ...: the container is what changes, not the index
+                    if isinstance(base, ast.Name):
+                        out.add(base.id)
+    return out
+
+
+def _guard_obligation(path, guard_txt, var):
+    """valid( tests on the way  =>  guard ) ?  -> (status, explanation)"""
+    import z3
+    rd = _Z3Reader()
+    hyps = []
+    for test, pol, block in path:
+        names = {x.id for x in ast.walk(test) if isinstance(x, ast.Name)}
+        target_base = var.split("[")[0]
+        if names & (_assigned_names(block) - {target_base}):
+            continue  # stale: the branch re-assigns what the test spoke about (the specified target itself is written last)
+        b = rd.boolean(test)
+        hyps.append(b if pol else z3.Not(b))
+    goal = rd.boolean(ast.parse(guard_txt, mode="eval").body)
+    s = z3.Solver()
+    s.set("timeout", 5000)
+    s.add(*rd.axioms)
+    s.add(*hyps)
+    s.add(z3.Not(goal))
+    r = s.check()
+    if r == z3.unsat:
+        return "discharged", ""
+    if r == z3.sat:
+        return "refuted", "counter-model " + str(s.model())[:600]
+    return "unknown", s.reason_unknown()
+
+#: qualname -> variable (or subscripted name) -> list of (allowed form, required?[, guard])
 SPECS: Dict[str, Dict[str, List[tuple]]] = {
     "pyttb.cp_als.cp_als": {
         "normresidual": [
-            ("np.sqrt(np.abs(normX**2 + M.norm()**2 - 2*iprod))", True),
-            ("M.norm()**2 - 2*iprod", True),  # data without a norm (sum tensor): the property's stated substitute
-            ("np.sqrt(np.abs(normX**2 + M.norm()**2 - 2*input_tensor.innerprod(M)))", False),
-            ("M.norm()**2 - 2*input_tensor.innerprod(M)", False),
+            ("np.sqrt(np.abs(normX**2 + M.norm()**2 - 2*iprod))", True, "normX != 0"),
+            ("M.norm()**2 - 2*iprod", True, "normX == 0"),  # data without a norm (sum tensor): the property's stated substitute
+            ("np.sqrt(np.abs(normX**2 + M.norm()**2 - 2*input_tensor.innerprod(M)))", False, "normX != 0"),
+            ("M.norm()**2 - 2*input_tensor.innerprod(M)", False, "normX == 0"),
         ],
-        "fit": [("1 - normresidual/normX", True), ("normresidual", True), ("0", False)],
+        "fit": [("1 - normresidual/normX", True, "normX != 0"), ("normresidual", True, "normX == 0"), ("0", False)],
         "fitchange": [("np.abs(fitold - fit)", True)],
         "iprod": [("np.sum(np.sum(M.factor_matrices[dimorder[-1]] * U_mttkrp, 0) * weights, 0)", True)],
     },
@@ -105,6 +218,12 @@ SPECS: Dict[str, Dict[str, List[tuple]]] = {
     "pyttb.hosvd.hosvd": {
         "eigsumthresh": [("tol**2 * normxsqr / d", True)],
         "relnorm": [("np.sqrt(diffnormsqr / normxsqr)", True)],
+        # the rank choice: eigenvalues in decreasing order, their tail sums, the last index whose tail sum still exceeds
+        # the threshold (+1), only for modes whose rank was not requested
+        "eigvec": [("D[pi]", True)],
+        "eigsum": [("np.cumsum(eigvec[::-1])", True), ("eigsum[::-1]", True)],
+        "ranks[k]": [("np.where(eigsum > eigsumthresh)[0][-1] + 1", True, "ranks[k] == 0")],
+        "factor_matrices[k]": [("V[:, pi[0:ranks[k]]]", True)],
     },
     "pyttb.cp_apr.tt_cp_apr_mu": {
         "normresidual": [("np.sqrt(normTensor**2 + M.norm()**2 - 2*input_tensor.innerprod(M))", True)],
@@ -133,9 +252,12 @@ def obligations(index: Index, only=None):
                             solver_output="function missing or renamed"))
             continue
         assigns: Dict[str, List[ast.Assign]] = {}
-        for n in ast.walk(fi.node):
-            if isinstance(n, ast.Assign) and len(n.targets) == 1 and isinstance(n.targets[0], ast.Name) and n.targets[0].id in spec:
-                assigns.setdefault(n.targets[0].id, []).append(n)
+        guards: Dict[int, list] = {}
+        for n, path in _walk_with_guards(fi.node):
+            if isinstance(n, ast.Assign) and len(n.targets) == 1 and isinstance(n.targets[0], (ast.Name, ast.Subscript)) \
+                    and ast.unparse(n.targets[0]) in spec:
+                assigns.setdefault(ast.unparse(n.targets[0]), []).append(n)
+                guards[id(n)] = path
         # single-assignment locals (other than the specified variables and loop-carried ones) are inlined
         counts: Dict[str, List[ast.AST]] = {}
         for n in ast.walk(fi.node):
@@ -152,10 +274,11 @@ def obligations(index: Index, only=None):
                 _ALIASES[name] = vals[0]
         for var, forms in spec.items():
             t1 = time.time()
-            allowed = [(parse(f), f, req) for f, req in forms]  # same alias reading on both sides
+            allowed = [(parse(f[0]), f[0], f[1]) for f in forms]  # same alias reading on both sides
+            form_guard = [f[2] if len(f) > 2 else None for f in forms]
             seen = set()
             bad = []
-            for a in assigns.get(var, []):
+            for ordinal, a in enumerate(assigns.get(var, [])):
                 try:
                     e = to_sympy(a.value)
                 except Exception as ex:  # pragma: no cover
@@ -170,6 +293,13 @@ def obligations(index: Index, only=None):
                     bad.append(f"L{a.lineno}: `{var} = {ast.unparse(a.value)}` is none of the stated formulas")
                 else:
                     seen.add(hit)
+                    if form_guard[hit] is not None:
+                        t2 = time.time()
+                        st, why = _guard_obligation(guards[id(a)], form_guard[hit], var)
+                        out.append(dict(name=f"{q}#formula-guard:{var}:{ordinal}", function=q, kind="formula", line=a.lineno, status=st, backend="z3",
+                                        time=round(time.time() - t2, 3),
+                                        solver_output=("" if st == "discharged" else f"L{a.lineno}: `{var} = {allowed[hit][1]}` is stated for `{form_guard[hit]}`; "
+                                                       f"the tests on the way to this assignment do not establish it: {why}")[:2000]))
             for k, (g, txt, req) in enumerate(allowed):
                 if req and k not in seen:
                     bad.append(f"the stated formula `{var} = {txt}` is not computed anywhere")
